@@ -597,6 +597,16 @@ Section Generic.
     destruct (rename l (resolve (s_cwd (w_s w)) arg) (w_fs w)); reflexivity.
   Qed.
 
+  (* USER always drops a pending rename source (it is a real path under the previous login's base) *)
+  Lemma user_drops_rnfr self arg d appe w :
+    s_rnfr (w_s (res_world (body users self "user" arg d appe w))) = None.
+  Proof.
+    unfold body, res_world. cbn [String.eqb Ascii.eqb Bool.eqb].
+    destruct (find_user users 0 arg None) as [i|]; [|reflexivity].
+    destruct (nth_error users i) as [u|]; [|reflexivity].
+    destruct (u_login u); destruct (u_password u); reflexivity.
+  Qed.
+
   (* a (re-)login that finds a user resets the working directory to that user's home *)
   Lemma user_resets_cwd self arg d appe w i u :
     find_user users 0 arg None = Some i -> nth_error users i = Some u ->
